@@ -1,6 +1,7 @@
 package main
 
 import (
+	"sort"
 	"fmt"
 	"go/constant"
 	"go/token"
@@ -481,7 +482,7 @@ func (fr *Frame) call(in ssa.Instruction, c *ssa.CallCommon, res ssa.Value, pos 
 	mods := map[string]bool{}
 	ex.callMods(c, func(s string) { mods[s] = true })
 	if len(mods) > 0 {
-		ex.havocFamilies(fr.st, mods)
+		fr.preserveLocals(func() { ex.havocFamilies(fr.st, mods) })
 	}
 	if callee != nil && !ex.P.isAnalysed(callee) {
 		ex.trusted["extern: "+callee.String()+" (no panic; writes only shared cells and fields reachable from its arguments)"] = true
@@ -619,7 +620,7 @@ func (fr *Frame) callByContract(callee *ssa.Function, sp *FuncSpec, args []*Val,
 	mods := map[string]bool{}
 	ex.callMods(&ssa.CallCommon{Value: callee, Args: argv}, func(s string) { mods[s] = true })
 	if len(mods) > 0 {
-		ex.havocFamilies(fr.st, mods)
+		fr.preserveLocals(func() { ex.havocFamilies(fr.st, mods) })
 	}
 	var rv *Val
 	if rl != nil {
@@ -1091,4 +1092,69 @@ func ghostCallNames(callee *ssa.Function) []string {
 		names = append(names, callee.Pkg.Pkg.Name()+"."+callee.Name())
 	}
 	return names
+}
+
+// preserveLocals: a callee cannot write the cells of a local variable whose address does not escape
+// (ssa.Alloc with Heap == false, in this frame or in a frame it is inlined into): their contents are the
+// same after the havoc of a call's footprint as before it.
+func (fr *Frame) preserveLocals(havoc func()) {
+	ex := fr.ex
+	type snap struct {
+		addr string
+		l    *Layout
+		v    *Val
+		key  string
+	}
+	var snaps []snap
+	for f := fr; f != nil; f = f.parent {
+		for v, val := range f.vals {
+			a, ok := v.(*ssa.Alloc)
+			if !ok || a.Heap || val == nil || val.C != nil {
+				continue
+			}
+			pt, ok := a.Type().Underlying().(*types.Pointer)
+			if !ok {
+				continue
+			}
+			l := ex.ls.of(pt.Elem())
+			if l.Kind == LUnsupported || (l.Kind == LArray && l.N > 16) || leafCount(l) > 24 {
+				continue
+			}
+			func() {
+				defer func() { recover() }()
+				snaps = append(snaps, snap{val.T, l, ex.load(fr.st, val.T, l, "", false), fmt.Sprintf("%d:%s:%d", f.depth, a.Name(), a.Pos())})
+			}()
+		}
+	}
+	sort.Slice(snaps, func(i, j int) bool { return snaps[i].key < snaps[j].key })
+	havoc()
+	for _, s := range snaps {
+		func() {
+			defer func() { recover() }()
+			nv := ex.load(fr.st, s.addr, s.l, "", false)
+			ex.q.assume(ex.eqVal(s.l, nv, s.v))
+		}()
+	}
+}
+
+func leafCount(l *Layout) int {
+	switch l.Kind {
+	case LScalar:
+		return 1
+	case LSlice:
+		return 4
+	case LString:
+		return 3
+	case LIface:
+		return 2
+	case LStruct, LTuple:
+		n := 0
+		for _, f := range l.Fields {
+			n += leafCount(f)
+		}
+		return n
+	case LArray:
+		return int(l.N) * leafCount(l.Elem)
+	}
+	return 1000
 }
